@@ -121,7 +121,7 @@ class LimitSignal:
     chunk = 500
 
     def bound(self, tier):
-        return 'times 0..n-1 over fs for n <= %d, fs in {1, 4, 1000}, start/stop None or any grid time or half-grid time' % (8 if tier == 'quick' else 12)
+        return 'times 0..n-1 over fs for n <= %d, fs in {1, 4, 1000}, start/stop None or any grid time or half-grid time; also event-locked axes starting before time zero' % (8 if tier == 'quick' else 12)
 
     def gen(self, tier, seed):
         nmax = 8 if tier == 'quick' else 12
@@ -132,6 +132,9 @@ class LimitSignal:
                     if a is not None and b is not None and a > b:
                         continue
                     yield dict(n=n, fs=fs, start=a, stop=b)
+                    if n >= 3 and (a == 0 or b == 0 or (a is None and b is not None)):
+                        # an event-locked time axis that starts before zero (limits stay non-negative)
+                        yield dict(n=n, fs=fs, start=a, stop=b, shift=(n // 2))
 
     def nontrivial(self, c):
         return c['start'] is not None or c['stop'] is not None
@@ -143,6 +146,10 @@ class LimitSignal:
         sig = np.arange(n, dtype=float) * 1.5 + 0.25
         start = None if c['start'] is None else times[int(c['start'])] if c['start'] == int(c['start']) and c['start'] < n else c['start'] / fs
         stop = None if c['stop'] is None else times[int(c['stop'])] if c['stop'] == int(c['stop']) and c['stop'] < n else c['stop'] / fs
+        if c.get('shift'):
+            times = times - times[c['shift']]              # samples before time zero; start / stop were taken on the old axis
+            start = None if start is None else max(0.0, float(start) - float(c['shift']) / fs)
+            stop = None if stop is None else max(0.0 if start is None else start, float(stop) - float(c['shift']) / fs)
         t0, s0 = times.copy(), sig.copy()
         try:
             s, t = limit_signal(times, sig, start=start, stop=stop)
